@@ -12,6 +12,10 @@ CFGS = ['{"memtable_size":150,"max_memtables":3,"sync_mode":0,"compact_sec":1}',
         '{"memtable_size":100,"max_memtables":4,"sync_mode":2,"compact_sec":1}']
 
 
+PAUSES = ['sm.rotate.swapped:400', 'sm.rotate.created:400', 'sm.rotate.oldsafe:400', 'sm.rotate.marked:300', 'sm.flush.table.renamed:500',
+          'sm.put.logged:200', 'sm.switch:300', 'sm.flush.snapshot:400', 'wal.new:400']
+
+
 def record(ctx, i, clients, ops, keys, tag='h'):
     d = ctx.sub(f'lin-{tag}{i}')
     out = os.path.join(d, 'trace.ndjson')
@@ -21,6 +25,9 @@ def record(ctx, i, clients, ops, keys, tag='h'):
     env = dict(os.environ)
     if i % 4:
         env['VERIF_YIELD'] = f'{seed}:{(i % 4) * 70}'
+    # every second history additionally widens ONE window of the write / switch / rotation / flush protocol
+    if i % 2:
+        env['VERIF_PAUSE'] = PAUSES[(i // 2) % len(PAUSES)]
     try:
         p = subprocess.run(args, capture_output=True, text=True, timeout=180, env=env)
     except subprocess.TimeoutExpired:
